@@ -1,5 +1,7 @@
-//! C04 witness: upsert_entities with a batch that names one uid twice leaves a stale indirect ancestor.
-//! x -> w -> u, w -> v -> y ; batch [u<y, u<, w<] : afterwards x -> w and w has no parents, yet x keeps ancestor y.
+//! C04 witness of the defect fixed in /repo's `upsert_entities` (kept as a regression probe): before the fix a batch
+//! naming one uid twice left a stale indirect ancestor; the repaired code dedupes the batch first.
+//! x -> w -> u, w -> v -> y ; batch [u<y, u<, w<] : afterwards x -> w and w has no parents; before the fix x kept
+//! ancestor y, with the fix x's ancestors are {w}.
 use cedar_policy_core::ast::{Entity, EntityType, EntityUID, Eid, Name, PartialValue};
 use cedar_policy_core::entities::{Entities, NoEntitiesSchema, TCComputation};
 use cedar_policy_core::extensions::Extensions;
